@@ -20,7 +20,7 @@ RULE = ("four families. vdelta: gen_vmdk.gen_delta — a descriptor with a paren
         "the 2nd..n-th extent, across every extent boundary, tail. vmdk: gen_vmdk.gen_disk — 1..8 extents of mixed kinds (flat, VMFS, hosted sparse, VMFS sparse, "
         "SE-sparse, stream-optimised) and sizes, descriptor text variants (access modes, quoted names with spaces / unicode / "
         "quote-like characters, optional fields, CRLF, ddb entries) or explicit handle lists; requests straddling every extent "
-        "boundary and the tail. hdd: Parallels directories with 1..4 storages (plain / expanding images, XML order shuffled). "
+        "boundary and the tail. hdd: Parallels directories with 1..4 storages (plain / expanding images, XML order shuffled, mostly not ascending by Start). "
         "line: extent lines rendered from abstract extents plus adversarial lines, parsed by the live regex and by the Lean "
         "regex model translated from it, and by the direct parser proved equal to it (compared inside the driver on every line, "
         "with its soundness check Raw.line = line ∧ validb); abstract extents (≈ 2/3 inside wfExtent) printed by printExtentLine "
@@ -181,7 +181,7 @@ def generate(seed, tier):
                       "queries": [["s", 0, 2]] + [["o", o, l] for o, l in qs]})
     nh = 50 if tier == "quick" else 700
     for i in range(nh):
-        r = gen_hdd.gen_recipe(rng, tier, max_depth=1)
+        r = gen_hdd.gen_recipe(rng, tier, max_depth=1, disorder=0.6)
         t = gen_hdd.Truth(r)
         cases.append({"id": f"h{i}", "fam": "hdd", "recipe": r, "align": rng.choice([8192] * 5 + [512, 4096, 65536]),
                       "queries": [["s", 0, 2]] + gen_hdd.gen_queries(rng, t, 8 if tier == "quick" else 14)})
